@@ -152,6 +152,12 @@ where
 pub struct PreAggAdapter {
     op_builder: Box<dyn OperatorBuilder>,
     state: Aggregate,
+    /// write an `error:` line for a row the operator cannot process (the adapter follows a sort,
+    /// not an aggregation: the row is dropped with a message like anywhere before an aggregation)
+    report_errors: bool,
+    /// error lines written so far: a live view runs the adapter again on every refresh, over a
+    /// table that only grows, and each failing row is reported once
+    reported: usize,
 }
 
 impl PreAggAdapter {
@@ -162,7 +168,14 @@ impl PreAggAdapter {
                 columns: Vec::new(),
                 data: Vec::new(),
             },
+            report_errors: false,
+            reported: 0,
         }
+    }
+
+    pub fn reporting(mut self, report_errors: bool) -> Self {
+        self.report_errors = report_errors;
+        self
     }
 }
 
@@ -187,6 +200,8 @@ impl AggregateOperator for PreAggAdapter {
             Row::Record(_) => panic!("PreAgg adaptor should only be used after aggregates"),
             Row::Aggregate(agg) => {
                 let mut op = self.op_builder.build();
+                let mut failed = 0;
+                let (report_errors, reported) = (self.report_errors, self.reported);
                 let mut processed_records: Vec<data::VMap> = agg
                     .data
                     .into_iter()
@@ -194,9 +209,19 @@ impl AggregateOperator for PreAggAdapter {
                         data: vmap,
                         raw: "".to_string(),
                     })
-                    .flat_map(|rec| op.process_mut(rec).unwrap_or(None))
+                    .flat_map(|rec| match op.process_mut(rec) {
+                        Ok(rec) => rec,
+                        Err(err) => {
+                            failed += 1;
+                            if report_errors && failed > reported {
+                                complain!("error: {}", err);
+                            }
+                            None
+                        }
+                    })
                     .map(|rec| rec.data)
                     .collect();
+                self.reported = self.reported.max(failed);
                 processed_records.extend(op.drain().map(|rec| rec.data));
                 let output_column_set: HashSet<String> = processed_records
                     .iter()
